@@ -57,15 +57,23 @@ def sh(cmd, cwd=None, timeout=1200, env=None, input=None):
 
 
 class BuildLock:
+    """inter-process lock around everything that touches coq/ and build/ (re-entrant within a process)"""
+    depth = 0
+    f = None
+
     def __enter__(self):
-        os.makedirs(BUILD, exist_ok=True)
-        self.f = open(os.path.join(BUILD, ".lock"), "w")
-        fcntl.flock(self.f, fcntl.LOCK_EX)
+        if BuildLock.depth == 0:
+            os.makedirs(BUILD, exist_ok=True)
+            BuildLock.f = open(os.path.join(BUILD, ".lock"), "w")
+            fcntl.flock(BuildLock.f, fcntl.LOCK_EX)
+        BuildLock.depth += 1
         return self
 
     def __exit__(self, *a):
-        fcntl.flock(self.f, fcntl.LOCK_UN)
-        self.f.close()
+        BuildLock.depth -= 1
+        if BuildLock.depth == 0:
+            fcntl.flock(BuildLock.f, fcntl.LOCK_UN)
+            BuildLock.f.close()
 
 
 # ---------------------------------------------------------------- step 1: tables
@@ -621,6 +629,9 @@ def main(argv=None):
     t0 = time.time()
     ctx = Ctx(pid, tier, seed)
     failures = []      # (obligation, detail)
+    # tables, proofs and driver are built under ONE lock: Generated.v must not change under a concurrent check
+    _lock = BuildLock()
+    _lock.__enter__()
     ok, msg = gen_tables()
     if not ok:
         failures.append(("table:gen_tables", msg[-800:]))
@@ -635,7 +646,10 @@ def main(argv=None):
             for e in proof["errors"]:
                 failures.append((e.split(" ")[0] if ":" in e.split(" ")[0] else "theorem:" + e, e + "\n" + proof.get("build_log", "")))
     log(f"[{pid}] proofs: {proof.get('discharged')}/{proof.get('obligations')} in {proof.get('build_s', 0):.1f}s {proof.get('errors')}")
-    dok, dmsg = build_driver(P)
+    try:
+        dok, dmsg = build_driver(P)
+    finally:
+        _lock.__exit__()
     log(f"[{pid}] driver: {dmsg[:300]}")
     corr = {"evaluations": 0, "distinct_nontrivial": 0, "samples": [], "distribution": {}, "disagreements": 0, "known": []}
     bad = []
